@@ -4,6 +4,7 @@ import (
 	"fmt"
 	"math/big"
 	"math/rand"
+	"sort"
 	"testing"
 	"time"
 
@@ -271,6 +272,73 @@ func c09TailProbe(r *cdpRunner, rnd *rand.Rand, rec *ev.Rec, batch int, basePric
 	}
 }
 
+// c09StarvationProbe: one collateral feed is inactive (its vaults cannot be judged and are not counted) while the
+// other collateral assets fall: the unsafe vaults whose prices ARE active must still be seized within the bound, the
+// positions that cannot be priced must not stall the sweep.
+func c09StarvationProbe(r *cdpRunner, rnd *rand.Rand, rec *ev.Rec, batch int, basePrice map[string]uint64) {
+	u := r.u
+	c := u.c
+	if r.panicked {
+		return
+	}
+	for _, as := range u.assets {
+		as := as
+		r.env("price", "restore "+as.Denom, func() { u.setPrice(as.Denom, basePrice[as.Denom], true) })
+	}
+	r.block(6 * time.Second)
+	var prods []*uProduct
+	for _, p := range u.products {
+		if p.App == appBeacon && !p.P.IsStableMintVault && p.P.MinCr.GT(sdk.OneDec()) {
+			prods = append(prods, p)
+		}
+	}
+	if len(prods) < 2 {
+		return
+	}
+	// fresh vaults a little above their minimum in every product
+	for i, a := range c.Accts {
+		p := prods[i%len(prods)]
+		has := false
+		for _, v := range r.last.Vaults {
+			if v.Owner == a.Addr.String() && v.ExtendedPairVaultID == p.ID {
+				has = true
+			}
+		}
+		if has {
+			continue
+		}
+		debt := p.P.DebtFloor.MulRaw(int64(30 + rnd.Intn(40)))
+		in := r.collateralFor(p, debt, p.P.MinCr.MulInt64(1060).TruncateInt64())
+		r.tx("vault_create", a, &vaulttypes.MsgCreateRequest{From: a.Addr.String(), AppId: p.App, ExtendedPairVaultId: p.ID, AmountIn: in, AmountOut: debt}, fmt.Sprintf("starvation probe: %s product %d", a.Name, p.ID))
+	}
+	// one collateral asset loses its feed, all collateral assets lose 10 %
+	colls := map[string]*uAsset{}
+	for _, p := range prods {
+		colls[p.In.Denom] = p.In
+	}
+	var names []string
+	for d := range colls {
+		names = append(names, d)
+	}
+	sort.Strings(names)
+	down := colls[names[rnd.Intn(len(names))]]
+	for _, d := range names {
+		as := colls[d]
+		px, _ := u.price(as)
+		r.env("price", "starvation probe: "+as.Denom+" -10%", func() { u.setPrice(as.Denom, px*90/100, as != down) })
+	}
+	rec.Count("starvation_probes", 1)
+	quiet := 2*((len(r.last.Vaults)+batch-1)/batch) + 6
+	for b := 0; b < quiet && !r.panicked; b++ {
+		r.block(6 * time.Second)
+	}
+	px, _ := u.price(down)
+	r.env("price", "starvation probe: feed of "+down.Denom+" back", func() { u.setPrice(down.Denom, px, true) })
+	for b := 0; b < quiet && !r.panicked; b++ {
+		r.block(6 * time.Second)
+	}
+}
+
 func TestC09(t *testing.T) {
 	rec := ev.New("C09", "exploration", "vault populations of two CDP apps (generation-1: liquidate messages only, generation-2: per-block sweep with batch size {1,2,5,200} + messages), oracle price paths (drops, crashes, recoveries), other vaults created/closed between sweeps; at every seizure the exact ratio with the recorded post-accrual debt decides safety; every block advances the per-vault 'survived sweeps while clearly unsafe' counter (bound 2*ceil(L/batch)+2); hand-over coin and auction-count checks. distinct = (generation, message|sweep, product, price) at seizures and (population, unsafe set size) at blocks")
 	defer finish(t, rec)
@@ -301,6 +369,7 @@ func TestC09(t *testing.T) {
 			r.block(6 * time.Second)
 		}
 		c09TailProbe(r, rnd, rec, batch, basePrice)
+		c09StarvationProbe(r, rnd, rec, batch, basePrice)
 		if run == 0 {
 			rec.Sample(map[string]interface{}{"variant": variant, "batch": batch, "oplog_tail": r.tail(10)})
 		}
